@@ -276,7 +276,13 @@ class WorkflowRecovery:
                     # Need to requeue for recovery
                     stages_to_requeue.append(stage)
                 elif self._can_start(stage, full_workflow):
-                    # Stage's dependencies are met - can start immediately
+                    # Stage's dependencies are met - can start immediately,
+                    # unless a message for it is already queued: on a healthy
+                    # workflow that is the upstream's own StartStage - or the
+                    # SkipStage of an OR-split that decided against this
+                    # branch, which a StartStage from here could overtake.
+                    if self.queue.has_pending_message_for_stage(stage.id):
+                        continue
                     stages_to_requeue.append(stage)
                 # else: dependencies not met, will be triggered by upstream completion
 
